@@ -27,7 +27,9 @@ ReqLayouts ==
      <<Line1("require", R(A, "v1.1.0", FALSE, "", "")), Line1("require", R(A, "v1.0.0", FALSE, "first", "")), Line1("require", R(B, "v1.0.0", TRUE, "", ""))>>,
      <<Stmt("require", "block", "", <<R(A, "v1.0.0", FALSE, "", ""), R(A, "v1.1.0", FALSE, "", ""), R(B, "v1.1.0", FALSE, "", "")>>)>>,
      \* commented lines that are not the first of their block (the harness also renders them set off by an empty line)
-     <<Stmt("require", "block", "", <<R(A, "v1.0.0", FALSE, "", ""), R(B, "v1.0.0", FALSE, "blead", ""), R(C2, "v2.0.0", TRUE, "clead", "ceol")>>)>>}
+     <<Stmt("require", "block", "", <<R(A, "v1.0.0", FALSE, "", ""), R(B, "v1.0.0", FALSE, "blead", ""), R(C2, "v2.0.0", TRUE, "clead", "ceol")>>)>>,
+     \* end-of-line comments that begin like the indirect marker but are not it
+     <<Stmt("require", "block", "", <<R(A, "v1.0.0", FALSE, "", "indirect;see-issue-123"), R(B, "v1.0.0", FALSE, "", "indirect;")>>)>>}
 \* other directives whose blocks must come out in their documented order
 Others(gov) ==
     <<Line1("module", [v |-> "example.com/m", cb |-> "", cs |-> ""])>>
@@ -37,7 +39,7 @@ Tail1 ==
       Stmt("retract", "block", "", <<[lo |-> "v1.0.0", hi |-> "v1.0.0", cb |-> "", cs |-> "r1"], [lo |-> "v1.1.0", hi |-> "v1.2.0", cb |-> "", cs |-> "r2"],
                                     [lo |-> "v1.1.0", hi |-> "v1.1.0", cb |-> "", cs |-> "r3"]>>),
       Stmt("replace", "block", "", <<Rep(B, "", "../b", "", "", ""), Rep(A, "v1.0.0", "../a", "", "", "")>>)>>
-GoVs == IF Size = "small" THEN {"", "1.21"} ELSE {"", "1.20", "1.21"}
+GoVs == IF Size = "small" THEN {"", "1.21", "1.9", "1.100"} ELSE {"", "1.20", "1.21", "1.9", "1.100"}
 
 RL(p, v, i) == [p |-> p, v |-> v, ind |-> i]
 \* requested lists: every subset of the paths, one version choice and a marking pattern per subset
